@@ -9,7 +9,6 @@ import (
 	"os"
 	"path/filepath"
 	"regexp"
-	"runtime/debug"
 	"sort"
 	"strings"
 	"testing"
@@ -24,10 +23,6 @@ import (
 	"github.com/robustirc/robustirc/internal/verifsim/core"
 	"gopkg.in/sorcix/irc.v2"
 )
-
-func stackString() string { return string(debug.Stack()) }
-
-func jsonMarshal(v interface{}) ([]byte, error) { return json.Marshal(v) }
 
 const prodMessageOffset = 4648398125000000000
 
@@ -64,23 +59,6 @@ func outString(ms []outMsg) string {
 		fmt.Fprintf(&b, "%d.%d %q -> %v\n", m.Id, m.Reply, mask003(m.Data), m.Rcpt)
 	}
 	return b.String()
-}
-
-func firstDiff(a, b string) string {
-	la, lb := strings.Split(a, "\n"), strings.Split(b, "\n")
-	for k := 0; k < len(la) || k < len(lb); k++ {
-		var x, y string
-		if k < len(la) {
-			x = la[k]
-		}
-		if k < len(lb) {
-			y = lb[k]
-		}
-		if x != y {
-			return fmt.Sprintf("line %d:\n  A: %s\n  B: %s", k+1, x, y)
-		}
-	}
-	return "(equal)"
 }
 
 // diffClass gives a stable, short label for the first differing dump line (the
@@ -361,21 +339,6 @@ func (r *e1Run) roleOf(n *e1Node, e *logEntry) string {
 		return "registered"
 	}
 	return "unregistered"
-}
-
-func trunc(s string, n int) string {
-	if len(s) > n {
-		return s[:n] + "…"
-	}
-	return s
-}
-
-func firstLinesOf(s string, n int) string {
-	l := strings.Split(s, "\n")
-	if len(l) > n {
-		l = l[:n]
-	}
-	return strings.Join(l, "\n")
 }
 
 func (r *e1Run) outputsOf(n *e1Node, e *logEntry) ([]outMsg, bool) {
